@@ -56,6 +56,18 @@ fn run_op(ctx: &Ctx, ch: &Channel, name: &str, chan: u16, seq: u32) -> (String, 
                 Err(e) => (format!("Err({})", err_name(&e)), "consumer".into()),
             }
         }
+        "consume_srv_cancel" => {
+            // consume (seq); the server cancels the consumer itself; the client's own cancel (seq+1)
+            // must still return once the server confirms it
+            match ch.basic_consume("q", ConsumerOptions::default()) {
+                Ok(c) => {
+                    let first = ctx.recv("consumer", c.receiver()).map(|m| consumer_msg_name(&m));
+                    let r2 = c.cancel();
+                    (format!("first {:?} cancel {:?}", first.map_err(|_| "disconnected"), r2.map_err(|e| err_name(&e))), "first Ok(\"ServerCancelled\") cancel Ok(())".to_string())
+                }
+                Err(e) => (format!("Err({})", err_name(&e)), "consumer".into()),
+            }
+        }
         "declare_nowait" => (format!("{:?}", ch.queue_declare_nowait("nw", QueueDeclareOptions::default()).map(|q| q.name().to_string()).map_err(|e| err_name(&e))), "Ok(\"nw\")".into()),
         "purge_nowait" => (format!("{:?}", ch.queue_purge_nowait("q").map_err(|e| err_name(&e))), "Ok(())".into()),
         "bind_nowait" => (format!("{:?}", ch.queue_bind_nowait("q", "x", "k", FieldTable::new()).map_err(|e| err_name(&e))), "Ok(())".into()),
@@ -67,7 +79,7 @@ fn run_op(ctx: &Ctx, ch: &Channel, name: &str, chan: u16, seq: u32) -> (String, 
 
 fn seqs_used(op: &str) -> u32 {
     match op {
-        "consume_cancel" => 2,
+        "consume_cancel" | "consume_srv_cancel" => 2,
         "publish" => 0, // a publish is not a request the broker numbers (Basic.Publish has no reply)
         _ => 1,
     }
@@ -87,6 +99,7 @@ impl Scenario for Rpc {
             json!({"programs": [["declare_nowait", "declare"], ["purge_nowait", "purge"], ["bind_nowait", "delete"]], "hold": true}),
             json!({"programs": [["publish", "declare"], ["delete_nowait", "publish", "purge"], ["declare_passive", "bind"]], "hold": true}),
             json!({"programs": [["declare", "purge", "delete"], ["declare", "purge", "delete"]], "hold": false}),
+            json!({"programs": [["consume_srv_cancel", "purge"], ["declare", "consume_srv_cancel"]], "hold": false}),
         ];
         if tier == "thorough" {
             v.push(json!({"programs": [["declare", "declare_auto", "declare_passive"], ["purge", "delete", "purge"], ["get_empty", "consume_cancel"]], "hold": true}));
@@ -108,6 +121,18 @@ impl Scenario for Rpc {
         let mut broker = StdBroker::new(Handshake::default());
         broker.hold_replies = p["hold"] == true;
         let programs: Vec<Vec<String>> = p["programs"].as_array().unwrap().iter().map(|a| a.as_array().unwrap().iter().map(|x| x.as_str().unwrap().to_string()).collect()).collect();
+        // a server-side cancel for every consume_srv_cancel op, offered once that consume was seen
+        for (i, prog) in programs.iter().enumerate() {
+            let chan = (i + 1) as u16;
+            let mut seq = 2u32;
+            for op in prog {
+                if op == "consume_srv_cancel" {
+                    let tag = format!("ctag-{}-{}", chan, seq);
+                    broker.pushes.push(Push::new(&format!("srv-cancel-{}", chan), vec![AMQPFrame::Method(chan, AMQPClass::Basic(basic::AMQPMethod::Cancel(basic::Cancel { consumer_tag: tag, nowait: false })))]).when_channel(chan, seq));
+                }
+                seq += seqs_used(op);
+            }
+        }
         let cfg = EnvConfig::default();
         Built {
             broker: Box::new(broker),
@@ -194,16 +219,20 @@ impl Scenario for ChClose {
     fn variants(&self, tier: &str) -> Vec<Value> {
         let mut v = Vec::new();
         for n in [1u16, 2, 3] {
-            for state in ["idle", "inflight", "halfcontent", "consumers"] {
+            for state in ["idle", "inflight", "halfcontent", "consumers", "crossing"] {
                 if tier != "thorough" && !(n == 1 || (n == 2 && state == "inflight") || (n == 3 && state == "idle")) {
                     continue;
                 }
                 v.push(json!({"n": n, "state": state}));
             }
         }
+        v.push(json!({"n": 1, "state": "crossing-reuse"}));
         v
     }
-    fn bound(&self, tier: &str, _p: &Value) -> usize {
+    fn bound(&self, tier: &str, p: &Value) -> usize {
+        if p["state"] == "crossing-reuse" {
+            return 2;
+        }
         if tier == "thorough" {
             3
         } else {
@@ -223,6 +252,8 @@ impl Scenario for ChClose {
             frames.push(AMQPFrame::Header(n, 60, Box::new(AMQPContentHeader { class_id: 60, weight: 0, body_size: 3, properties: Default::default() })));
             frames.push(AMQPFrame::Body(n, vec![1]));
         }
+        let reuse = state == "crossing-reuse";
+        let state = if reuse { "crossing".to_string() } else { state };
         frames.push(chan_close_frame(n, 406, "PRECONDITION_FAILED"));
         // offered once channel n's actor has sent its first request (so that the state exists)
         let need = match state.as_str() {
@@ -249,7 +280,7 @@ impl Scenario for ChClose {
                 let mut actors = Vec::new();
                 for chan in 1..=3u16 {
                     let ch = conn.open_channel(Some(chan)).expect("open_channel");
-                    let state = st2.clone();
+                    let state = if st2 == "crossing-reuse" { "crossing".to_string() } else { st2.clone() };
                     actors.push((chan, ctx.spawn(&format!("c{}", chan), move |ctx| {
                         let mut seq = 2u32;
                         if chan == n {
@@ -272,6 +303,8 @@ impl Scenario for ChClose {
                             if state == "inflight" {
                                 let r = ch.queue_delete("q", QueueDeleteOptions::default());
                                 ctx.log(format!("delete -> {:?}", r.map_err(|e| err_name(&e))));
+                            } else if state == "crossing" {
+                                // the client closes the channel itself; the server's close may cross it
                             } else if state == "idle" {
                                 // virtual time only passes once nothing else can happen, i.e.
                                 // after the server's close has been pushed and handled
@@ -283,10 +316,12 @@ impl Scenario for ChClose {
                                 }
                             }
                             // next calls after the close
-                            let r = ch.qos(0, 1, false);
-                            ctx.log(format!("next -> {:?}", r.map_err(|e| err_name(&e))));
-                            let r = ch.qos(0, 1, false);
-                            ctx.log(format!("later -> {:?}", r.map_err(|e| err_name(&e))));
+                            if state != "crossing" {
+                                let r = ch.qos(0, 1, false);
+                                ctx.log(format!("next -> {:?}", r.map_err(|e| err_name(&e))));
+                                let r = ch.qos(0, 1, false);
+                                ctx.log(format!("later -> {:?}", r.map_err(|e| err_name(&e))));
+                            }
                             for c in consumers {
                                 std::mem::forget(c);
                             }
@@ -306,7 +341,17 @@ impl Scenario for ChClose {
                 }
                 for (chan, a) in actors {
                     ctx.join(a);
-                    if chan == n {
+                    if chan == n && st2 == "crossing" && !reuse {
+                        // id n must be available again - but see known_findings.json: reusing the id
+                        // right after crossing closes can meet the server's late CloseOk; probed
+                        // separately by variant crossing-reuse
+                        let r = conn.open_channel(Some(n + 10));
+                        ctx.log(format!("reopen -> {:?}", r.as_ref().map(|c| c.channel_id() - 10).map_err(err_name)));
+                        if let Ok(c) = r {
+                            let r = c.close();
+                            ctx.log(format!("reclose -> {}", res(&r)));
+                        }
+                    } else if chan == n {
                         // id n must be available again
                         let r = conn.open_channel(Some(n));
                         ctx.log(format!("reopen -> {:?}", r.as_ref().map(|c| c.channel_id()).map_err(err_name)));
@@ -326,6 +371,8 @@ impl Scenario for ChClose {
         let mut v = Vec::new();
         let n = p["n"].as_u64().unwrap() as u16;
         let state = p["state"].as_str().unwrap();
+        let reuse = state == "crossing-reuse";
+        let state = if reuse { "crossing" } else { state };
         let closed = o.io_events.iter().any(|e| matches!(e, IoEvent::Frame(AMQPFrame::Method(c, AMQPClass::Channel(amq_protocol::protocol::channel::AMQPMethod::Close(_)))) if *c == n));
         let want_err = format!("Err(ServerClosedChannel({},406,PRECONDITION_FAILED))", n);
         for chan in 1..=3u16 {
@@ -344,6 +391,13 @@ impl Scenario for ChClose {
                     } else if l != "chclose -> Ok" {
                         v.push(("chclose:other-channel-disturbed".into(), format!("channel {} (not closed): {}", chan, l)));
                     }
+                }
+            } else if closed && state == "crossing" {
+                // both sides closed channel n at about the same time: the client's close either
+                // completed or reports the server's close; nothing else may be disturbed
+                let ok = log.iter().any(|l| l == "chclose -> Ok(())" || *l == format!("chclose -> Err(\"ServerClosedChannel({},406,PRECONDITION_FAILED)\")", n));
+                if !ok {
+                    v.push(("chclose:crossing-close-result".into(), format!("channel {}: {:?}", n, log)));
                 }
             } else if closed {
                 // first failing call names the cause; later calls keep failing
@@ -380,6 +434,14 @@ impl Scenario for ChClose {
                         }
                     }
                 }
+            }
+        }
+        if reuse {
+            // the one interleaving recorded as a known finding: the server's CloseOk for the
+            // client's crossing Close arrives after id n was opened again
+            let main = o.logs.get("main").cloned().unwrap_or_default();
+            if main.iter().any(|l| l.starts_with("reopen -> Err")) {
+                return vec![("chclose:crossing-id-reuse".into(), format!("server and client closed channel {} at the same time, the id was reopened at once and the server's late CloseOk hit the new channel: {:?}", n, main))];
             }
         }
         if closed {
